@@ -182,7 +182,7 @@ def run_case(case, work, rec):
             continue
         if a["lv"] == b["lv"] and a.get("box") == b.get("box") and a.get("file") == b.get("file"):
             continue
-        WHOLE, BYTES = {"truncate", "extend", "delete_file"}, {"insert", "remove", "fabhdr"}
+        WHOLE, BYTES = {"truncate", "extend", "delete_file", "file_to_dir"}, {"insert", "remove", "fabhdr"}
         if a["lv"] == b["lv"] and ((a["op"] in WHOLE and b["op"] in WHOLE | BYTES) or (b["op"] in WHOLE and a["op"] in WHOLE | BYTES)):
             continue   # whole-file edits do not compose with other edits of the same level's files
         one([a, b], pair=True)
